@@ -345,6 +345,16 @@ impl ConfigLockfile {
     }
 }
 
+// Returns the keys stored in `trie` that are `path` itself or one of its ancestor
+// directories. A raw common-prefix search compares bytes, so it would also return
+// siblings that merely share a string prefix (e.g. `app` for `app2/src/main.rs`);
+// only matches that end on a path component boundary are kept.
+pub(crate) fn path_prefix_search(trie: &Trie<u8>, path: &str) -> Vec<String> {
+    trie.common_prefix_search(path)
+        .filter(|m: &String| m.len() == path.len() || path.as_bytes()[m.len()] == b'/')
+        .collect()
+}
+
 #[derive(Debug)]
 pub(crate) struct Index<'a> {
     pub(crate) targets: Vec<String>,
@@ -400,8 +410,8 @@ impl<'a> Index<'a> {
         cfg.targets.iter().enumerate().try_for_each(|(i, target)| {
             let target_path_str = target.path.as_str();
             // if this target is under an existing target, add it as a dep
-            let mut nodes = targets_trie
-                .common_prefix_search(target_path_str)
+            let mut nodes = path_prefix_search(&targets_trie, target_path_str)
+                .into_iter()
                 .filter(|t: &String| t != &target.path)
                 .map(|t| dag.get_node_by_label(&t).map_err(MonorailError::from))
                 .collect::<Result<Vec<usize>, MonorailError>>()?;
@@ -411,7 +421,7 @@ impl<'a> Index<'a> {
                     let uses_path_str = s.as_str();
                     uses_builder.push(uses_path_str);
                     let matching_targets: Vec<String> =
-                        targets_trie.common_prefix_search(uses_path_str).collect();
+                        path_prefix_search(&targets_trie, uses_path_str);
                     use2targets.entry(s).or_default().push(target_path_str);
                     // a dependency has been established between this target and some
                     // number of targets, so we update the graph
